@@ -554,6 +554,13 @@ func newSlim(keys []string, bytesValues [][]byte, opt *Opt) (*Slim, error) {
 			idxs[i] = bmtree.PathToIndex(bitmapSize, p)
 		}
 
+		// Without InnerPrefix only the length of a prefix is stored, in a 16-bit
+		// step in 4-bit unit. A longer step would silently wrap.
+		if !*opt.InnerPrefix && (wordStart-o.fromKeyBit)>>2 > maxStep {
+			return nil, errors.Wrapf(ErrStepTooLong,
+				"keys[%d:%d] share %d bits from %d-th bit", o.keyStart, o.keyEnd, wordStart-o.fromKeyBit, o.fromKeyBit)
+		}
+
 		// Without the bits of label word at parent node
 		c.addInner(nid, idxs, bitmapSize, o.fromKeyBit, wordStart, keys[s])
 
